@@ -137,6 +137,9 @@ type subgoal struct {
 	hyps []*smt.Term
 	goal *smt.Term
 	sk   []*smt.Term
+	// arith: internally generated address-arithmetic side condition; memory facts
+	// are irrelevant to it and are left out of the query
+	arith bool
 }
 
 // caseSplit splits a goal that reads memory at a skolem-dependent address over a
@@ -144,7 +147,7 @@ type subgoal struct {
 // read resolves syntactically) plus the residual case "none of them".
 func (e *Engine) caseSplit(hyps []*smt.Term, goal *smt.Term, sk []*smt.Term) []subgoal {
 	c := e.C
-	whole := []subgoal{{hyps, goal, sk}}
+	whole := []subgoal{{hyps, goal, sk, false}}
 	if len(sk) == 0 {
 		return whole
 	}
@@ -269,7 +272,7 @@ func (e *Engine) caseSplit(hyps []*smt.Term, goal *smt.Term, sk []*smt.Term) []s
 		e.Stats["split-prechecks"]++
 		if r.Status == "unsat" {
 			e.Stats["split-prechecks-outside"]++
-			return []subgoal{{hyps, strip(goal), sk}}
+			return []subgoal{{hyps, strip(goal), sk, false}}
 		}
 	}
 	var out []subgoal
@@ -292,7 +295,7 @@ func (e *Engine) caseSplit(hyps []*smt.Term, goal *smt.Term, sk []*smt.Term) []s
 				nsk = append(nsk, s)
 			}
 		}
-		out = append(out, subgoal{hs, c.Subst(goal, m), nsk})
+		out = append(out, subgoal{hs, c.Subst(goal, m), nsk, false})
 		residual = append(residual, c.Not(c.Eq(selIdx, a)))
 	}
 	// Contiguous store addresses first..first+N-1. With d = first-base the index of
@@ -316,21 +319,21 @@ func (e *Engine) caseSplit(hyps []*smt.Term, goal *smt.Term, sk []*smt.Term) []s
 			big := c.BVC(64, 1<<62)
 			zero := c.BVC(64, 0)
 			// side condition
-			out = append(out, subgoal{hyps, c.And(c.Sle(zero, d), c.Sle(d, big)), sk})
+			out = append(out, subgoal{hyps, c.And(c.Sle(zero, d), c.Sle(d, big)), sk, true})
 			// lemma (fresh symbols)
 			ld := c.Fresh("lemma$d", smt.BV64)
 			lx := c.Fresh("lemma$x", smt.BV64)
 			out = append(out, subgoal{[]*smt.Term{c.Sle(zero, ld), c.Sle(ld, big)},
-				c.Or(c.Slt(lx, ld), c.Sle(c.Add(ld, n), lx), c.Ult(c.Sub(lx, ld), n)), nil})
+				c.Or(c.Slt(lx, ld), c.Sle(c.Add(ld, n), lx), c.Ult(c.Sub(lx, ld), n)), nil, true})
 			for _, side := range []*smt.Term{c.Slt(theSk, d), c.Sle(c.Add(d, n), theSk)} {
 				hs := append(append([]*smt.Term(nil), hyps...), side)
-				out = append(out, subgoal{hs, c.Not(inRange), sk})
-				out = append(out, subgoal{hs, strip(goal), sk})
+				out = append(out, subgoal{hs, c.Not(inRange), sk, true})
+				out = append(out, subgoal{hs, strip(goal), sk, false})
 			}
 			return out
 		}
 	}
-	out = append(out, subgoal{append(append([]*smt.Term(nil), hyps...), residual...), strip(goal), sk})
+	out = append(out, subgoal{append(append([]*smt.Term(nil), hyps...), residual...), strip(goal), sk, false})
 	return out
 }
 
@@ -346,6 +349,24 @@ func (e *Engine) splitGoal(g *smt.Term, hyps []*smt.Term, out *[]subgoal, sk *[]
 	case smt.OImplies:
 		e.splitGoal(g.Args[1], append(append([]*smt.Term(nil), hyps...), g.Args[0]), out, sk)
 		return
+	case smt.OOr:
+		// a or b or Q  ==  (not a and not b) => Q, for a disjunct Q that has structure
+		pick := -1
+		for i, a := range g.Args {
+			if a.Op == smt.OForall || a.Op == smt.OAnd || a.Op == smt.OIte || a.Op == smt.OImplies {
+				pick = i
+			}
+		}
+		if pick >= 0 {
+			nh := append([]*smt.Term(nil), hyps...)
+			for i, a := range g.Args {
+				if i != pick {
+					nh = append(nh, c.Not(a))
+				}
+			}
+			e.splitGoal(g.Args[pick], nh, out, sk)
+			return
+		}
 	case smt.OIte:
 		if g.Sort == smt.Bool {
 			e.splitGoal(g.Args[1], append(append([]*smt.Term(nil), hyps...), g.Args[0]), out, sk)
@@ -386,12 +407,16 @@ func (e *Engine) literalAxioms(ts []*smt.Term) []*smt.Term {
 	c := e.C
 	seen := map[*smt.Term]bool{}
 	var lits []*smt.Term
+	var lens []*smt.Term
 	var rec func(t *smt.Term)
 	rec = func(t *smt.Term) {
 		if seen[t] {
 			return
 		}
 		seen[t] = true
+		if t.Op == smt.OApp && t.Name == "slen" && !t.HasBound() {
+			lens = append(lens, t)
+		}
 		if t.Op == smt.OVar && t.Sort == smt.Str {
 			if _, ok := e.litOf(t); ok {
 				lits = append(lits, t)
@@ -406,6 +431,10 @@ func (e *Engine) literalAxioms(ts []*smt.Term) []*smt.Term {
 	}
 	sort.Slice(lits, func(i, j int) bool { return lits[i].Name < lits[j].Name })
 	var out []*smt.Term
+	for _, l := range lens {
+		// every string has a length in [0, 2^56]
+		out = append(out, c.Sle(e.i64(0), l), c.Sle(l, e.i64(1<<56)))
+	}
 	for i, l := range lits {
 		s, _ := e.litOf(l)
 		out = append(out, c.Eq(c.App("slen", smt.BV64, l), e.i64(int64(len(s)))))
@@ -859,13 +888,19 @@ func (e *Engine) Discharge(obs []*Obligation, opts DischargeOpts) {
 					}
 				}
 			}
+			if os.Getenv("GVC_DEBUG") != "" && strings.Contains(ob.Name, os.Getenv("GVC_DEBUG")) {
+				fmt.Fprintf(os.Stderr, "DEBUG %s #%d goal before: %s\n", ob.Name, ob.Ord, e.C.Show(sg.goal))
+			}
 			hy0, sg.goal = e.propagate(hy0, sg.goal)
+			if os.Getenv("GVC_DEBUG") != "" && strings.Contains(ob.Name, os.Getenv("GVC_DEBUG")) {
+				fmt.Fprintf(os.Stderr, "DEBUG %s #%d goal after: %s\n", ob.Name, ob.Ord, e.C.Show(sg.goal))
+			}
 			hy0 = relevant(hy0, sg.goal, sg.hyps)
 			cases = append(cases, e.caseSplit(hy0, sg.goal, sk)...)
 		}
 		for _, sg := range cases {
 			var hy []*smt.Term
-			if !mentionsArrays(sg.goal) {
+			if sg.arith && !mentionsArrays(sg.goal) {
 				// pure arithmetic goal: memory facts cannot help
 				for _, h := range sg.hyps {
 					if !mentionsArrays(h) {
